@@ -21,6 +21,33 @@ func (rt *Transfer) createDevice(f *File, st fs.FileInfo) error {
 	defer parentDir.Close()
 	perm := fs.FileMode(f.Mode) & os.ModePerm
 	mode := f.Mode & rsync.S_IFMT
+	if st != nil {
+		// Something with this name exists. Keep it only if it is what we
+		// are about to create: the same kind of file and, for a device, the
+		// same device numbers. Otherwise make room.
+		same := false
+		switch mode {
+		case rsync.S_IFCHR:
+			same = st.Mode().Type() == os.ModeDevice|os.ModeCharDevice
+		case rsync.S_IFBLK:
+			same = st.Mode().Type() == os.ModeDevice
+		case rsync.S_IFSOCK:
+			same = st.Mode().Type() == os.ModeSocket
+		case rsync.S_IFIFO:
+			same = st.Mode().Type() == os.ModeNamedPipe
+		}
+		if same && (mode == rsync.S_IFCHR || mode == rsync.S_IFBLK) {
+			sys, ok := st.Sys().(*syscall.Stat_t)
+			same = ok && uint32(sys.Rdev) == uint32(f.Rdev)
+		}
+		if same {
+			return nil
+		}
+		if err := rt.DestRoot.Remove(f.Name); err != nil {
+			return fmt.Errorf("unlinking to make room for special file: %v", err)
+		}
+		st = nil
+	}
 	switch mode {
 	case rsync.S_IFCHR:
 		if st != nil && st.Mode().Type()&os.ModeCharDevice != 0 {
